@@ -15,7 +15,8 @@
                                    in place by another session's uncommitted / rolled-back / later delete)
                                 4  the read goes through an accessor that uses the store's own epoch, which hides
                                    (or keeps) an entity on which versioned path and snapshot agree
-                                5  SPARQL read / find_with_pending by a transaction with pending triple operations
+                                5  triple read (SPARQL / find_with_pending) inside a transaction: the RDF store keeps
+                                   no snapshot (later commits show) and the scan ignores the transaction's own buffer
                                 6  raw adjacency (neighbours, degrees) — no visibility check at all
                               A write statement's MATCH is a read too: positions of writes whose matched set
                               differs between model and specification are reported with class + 10, and the
@@ -131,10 +132,8 @@ Definition classify_read (st : state) (sp : sstate) (s : Z) (k : kind) : Z :=
                                      else if Nat.ltb (count_row r rm) (count_row r ri) then row_class_ideal_only st e t dr ty r else 0) ri 0
   | Neigh _ _ | Degree _ => 6
   | TripleQ _ | TripleApi _ =>
-      match sess st s with
-      | Some tx => match rdf_buf st tx with [] => 0 | _ => 5 end
-      | None => 0
-      end
+      (* the RDF store keeps no snapshot and the triple scan ignores the transaction's buffer *)
+      match sess st s with Some _ => 5 | None => 0 end
   | DbCounts =>
       let sys n := Mv st (tm_epoch st) SYSTEM n in
       let c := first_class (fun n => let cm := Ms st n in let ci := in_db dc n in
